@@ -4,7 +4,7 @@ PATCH=$1; shift
 cd /repo && git diff --quiet || { echo "/repo is dirty"; exit 2; }
 git -C /repo apply "$PATCH" || { echo "PATCH DOES NOT APPLY to /repo"; exit 2; }
 for c in "$@"; do
-  out=$(/verif/check $c quick 2>&1); code=$?
+  out=$(VERIF_EVIDENCE_DIR=/verif/target/seeded-evidence /verif/check $c quick 2>&1); code=$?
   echo "--- $c exit=$code: $(echo "$out" | grep -c '^VIOLATION') VIOLATION lines; $(echo "$out" | tail -1)"
   echo "$out" | grep -A3 "^VIOLATION" | head -12
 done
